@@ -43,7 +43,7 @@ OK(e) == LET x == Expected(e) IN
 Init == l = 1
 Next == /\ l <= Len(Trace) /\ l' = l + 1
         /\ IF IsRing(Trace[l])
-           THEN /\ PrintT(<<"CLASS", Trace[l].id, IF RingExpected(Trace[l]) = <<"undef">> THEN "ring-unjudged" ELSE IF RingExpected(Trace[l]) = <<"err">> THEN "error" ELSE "ring">>)
+           THEN /\ PrintT(<<"CLASS", Trace[l].id, IF RingExpected(Trace[l]) = <<"undef">> THEN "ring_unjudged" ELSE IF RingExpected(Trace[l]) = <<"err">> THEN "error" ELSE "ring">>)
                 /\ RingOK(Trace[l]) \/ PrintT(<<"MISMATCH", Trace[l].id, 1, "WRONG_RESULT", ToJson(RingExpected(Trace[l]))>>)
            ELSE /\ PrintT(<<"CLASS", Trace[l].id, IF IsErr(Expected(Trace[l])) THEN "error" ELSE "value">>)
                 /\ OK(Trace[l]) \/ PrintT(<<"MISMATCH", Trace[l].id, 1, "WRONG_RESULT", ToJson(Expected(Trace[l]))>>)
